@@ -52,6 +52,22 @@ CHECKS = {
             "_max_rel_energy_error, orbit/libration-point energy and jacobi) must have zero Lie derivative along the library's field at spatial states, and stay constant along System.propagate for fixed 4/6/8 and adaptive 5/8.",
             "States closer than 0.02 to a primary skipped; tolerances 1e-12 (field), 1e-9 (Jacobian, relative), 2e-7*scale (Lie derivative by Richardson differences).",
             "DESIGN.md C01"),
+    "C13": ("model_checking",
+            "stateless exhaustive exploration of the real predictor-corrector loop: DFS over all corrector outcome sequences {accept, reject, raise} to completion, per configuration, compared step by step with a reference model of the loop",
+            "The corrector is owned by the harness, so its answers are the only nondeterminism; for each of 540 (thorough: 972) configurations (stepper natural/secant x 1-D +/- and 2-D step x three target intervals x member/retry limits x "
+            "step bounds x shrink policy none/x0.25/raising) every outcome sequence is followed until the real run() returns (the loop always terminates), i.e. the complete behaviour tree of the loop. Every complete run is compared with a 40-line "
+            "reference model written from the property text: predictions (offset = current step for natural, |step| * unit secant for secant), family, parameter history, accepted/rejected/iteration counts, final step, clamp bounds, retry limit, "
+            "stop at the first member outside the target.",
+            "accepted_count counts the seed; give-up after max_retries+1 consecutive failures; initial step inside [step_min, step_max]; end-to-end orbit families are covered by C05's periodicity oracle only for single corrections.",
+            "DESIGN.md C13"),
+    "C05": ("fault_enumeration",
+            "exhaustive enumeration of solver configurations on harness-owned residual maps with all evaluations logged, plus exceptions injected at every 1- and 2-subset of the first 12 residual evaluations; orbit families x points x mass ratios x amplitudes with independent closure propagation",
+            "Solver contract: 12 residual maps (well/ill conditioned, two roots, singular start, no root, rectangular, NaN half-space) x start lattice x tol x max_attempts x max_delta x plain/Armijo x analytic/FD Jacobian are all run through the real "
+            "_NewtonBackend.run; on every execution 'returned => |R(x)|<tol recomputed independently', monotone residual norms and the step cap on every notified iterate, and reported iterations are checked; faults (exceptions) are injected at every "
+            "placement of 1 (thorough: 2) among the first 12 evaluations. Orbit half: each corrected halo N/S, planar Lyapunov and vertical orbit at L1/L2 (EM, mu=0.04; thorough adds Sun-Earth and denser amplitude/tolerance ladders) is re-propagated "
+            "with scipy DOP853 on a harness-side field over the reported period and must close within 1e-6.",
+            "A raise of any exception type is accepted as 'raises an error'; closure bound 1e-6 (observed <= 2e-9 on correct families); known finding F15 (vertical family) is listed in known_findings.json.",
+            "DESIGN.md C05"),
 }
 
 NOT_YET = {
